@@ -23,7 +23,7 @@ import subprocess
 
 from lib import vlib
 
-FILES = ["NodeStateOps.tla", "Gossip.tla", "MC_Gossip.tla", "TraceGossip.tla",
+FILES = ["NodeStateOps.tla", "FdOps.tla", "Gossip.tla", "MC_Gossip.tla", "TraceGossip.tla",
          "MC_TraceGossip.tla", "ObserveGossip.tla", "MC_ObserveGossip.tla"]
 
 # formulas that constitute each property (inv = state invariants, props = action properties);
@@ -375,7 +375,7 @@ def family_run(tier, seed):
         cfgp = vlib.write_cfg(tmp(f"model_{name}.cfg"), "Spec", c, invariants=ALL_INV + MODEL_ONLY_INV,
                               properties=ALL_PROPS + (["C13_Exact"] if nogc else []),
                               view="View", constraint="Bounded", action_constraint="EmitEdge")
-        m = vlib.cached_model_run("gossip_" + name, "MC_Gossip.tla", cfgp, FILES[:3], workers=6,
+        m = vlib.cached_model_run("gossip_" + name, "MC_Gossip.tla", cfgp, FILES[:4], workers=6,
                                   timeout=3400, heap="12g")
         if not m["ok"]:
             raise vlib.ToolError(f"Gossip model {name}: formula fails on the MODEL (specification "
@@ -399,14 +399,28 @@ def family_run(tier, seed):
                                                          "Prior", "DeadGrace", "PredKey", "PredVal",
                                                          "Budget", "Cluster")}
         over_t.setdefault("Grace", c["Grace"])
+        # a replay that differs from TLC's prediction may still be a behaviour of the specification
+        # (shuffle among equally stale members, float rounding exactly at the phi threshold): the
+        # recorded real trace is validated against the actions before it counts as drift
+        cand = []
         for o in div[:8]:
             lines = ['{"a":"Reset"}\n'] + [json.dumps(strip(dict(e, i=i))) + "\n"
                                           for i, e in enumerate(o["events"])
                                           if e.get("a") not in ("Nop", "Lose") and not e.get("skipped")]
-            fam["divergent"].append({"lines": lines, "over": jsonable(over_t),
-                                     "hcfg": {k: v for k, v in hcfg.items() if k != "strip_hb"},
-                                     "steps": o["steps"], "nogc": nogc,
-                                     "note": f"replay of model {name} diverged"})
+            cand.append((lines, o["steps"]))
+        if cand:
+            cpath = tmp(f"replaydiv_{name}_{os.getpid()}.ndjson")
+            write_traces(cpath, [c[0] for c in cand])
+            _t, _n, acc, rej = validate_batch(cpath, trace_constants(over_t), f"rd_{name}_{os.getpid()}", nogc,
+                                              max_rounds=len(cand) + 1)
+            fam["models"][name]["diverged_but_accepted_by_trace_validation"] = acc
+            rejected_lines = {"".join(r[0]) for r in rej}
+            for lines, steps in cand:
+                if "".join(lines) in rejected_lines:
+                    fam["divergent"].append({"lines": lines, "over": jsonable(over_t),
+                                             "hcfg": {k: v for k, v in hcfg.items() if k != "strip_hb"},
+                                             "steps": steps, "nogc": nogc,
+                                             "note": f"replay of model {name} diverged"})
 
     # ---------------- code -> spec
     for sc in scenarios(tier, seed):
